@@ -417,6 +417,8 @@ func (x *c09) step(op C09Op) error {
 		return x.appendClient(m, op.Roots)
 	case "free":
 		return x.freeClient(m, resolveIdx(op.Idx, op.OOB, len(m.Roots)))
+	case "paidfail":
+		return x.paidFail(op)
 	case "write":
 		// an honest upload (scripted renter, nothing withheld)
 		return x.fault(m, Fault{Kind: "write"}, op)
@@ -513,6 +515,84 @@ func (x *c09) stale(m *mcontract, op C09Op) error {
 	x.cs.Class("stale:" + op.Op)
 	if res.Done {
 		return fmt.Errorf("%s: the host completed it although the contract is no longer revisable", what)
+	}
+	if err := quietLog(x.H.Log.Since(logFrom)); err != nil {
+		return fmt.Errorf("%s (%v): %w", what, res, err)
+	}
+	return x.check(what+" -> "+res.String(), &before)
+}
+
+// paidFailKinds are account-paid RPCs that must fail: the sector is not on the
+// host, or the request is outside what the request validation accepts.
+var paidFailKinds = []string{"read-unknown-root", "verify-unknown-root", "read-length-zero", "read-beyond-sector", "read-end-unaligned",
+	"read-offset-unaligned", "write-length-zero", "write-length-unaligned", "write-too-long", "verify-leaf-out-of-range", "read-refused-append-root"}
+
+// paidFail issues one of them from a funded account with a valid token and a
+// valid price table: it must fail and leave roots, revisions and every account
+// and pool balance exactly as they were (no successful debit, no sector call).
+func (x *c09) paidFail(op C09Op) error {
+	m := x.C[0]
+	if x.Bal[0].Cmp(types.Siacoins(1).Div64(2)) < 0 {
+		for _, c := range x.C {
+			if !c.Renewed {
+				m = c
+			}
+		}
+		if err := x.fundAccount(m, 0, types.Siacoins(1)); err != nil {
+			return err
+		}
+		x.acctFunded = true
+	}
+	kind := paidFailKinds[mod(op.Len, len(paidFailKinds))]
+	token := x.R.Token(x.AcctKeys[0])
+	stored, _ := rhpx.PoolSector(mod(op.Off, rhpx.PoolSize))
+	unknown := rhpx.UnknownRoot(1 + mod(op.Off, 7))
+	before := x.snapshot()
+	logFrom := x.H.Log.Len()
+	var res rhpx.Result
+	switch kind {
+	case "read-unknown-root", "read-refused-append-root":
+		if kind == "read-refused-append-root" {
+			// let the host see (and refuse) the root in an append first
+			for _, c := range x.C {
+				if !c.Renewed {
+					if err := x.appendClient(c, []int{-(1 + mod(op.Off, 7)), 2}); err != nil {
+						return err
+					}
+					break
+				}
+			}
+			before = x.snapshot()
+			logFrom = x.H.Log.Len()
+		}
+		res = x.R.Read(x.Prices, token, unknown, 0, proto4.LeafSize*uint64(1+mod(op.Off, 64)), rhpx.Script{}).Result
+	case "verify-unknown-root":
+		res = x.R.Verify(x.Prices, token, unknown, uint64(mod(op.Off, proto4.LeavesPerSector)), rhpx.Script{}).Result
+	case "read-length-zero":
+		res = x.R.Read(x.Prices, token, stored, 0, 0, rhpx.Script{}).Result
+	case "read-beyond-sector":
+		res = x.R.Read(x.Prices, token, stored, proto4.SectorSize-proto4.LeafSize, 2*proto4.LeafSize, rhpx.Script{}).Result
+	case "read-end-unaligned":
+		res = x.R.Read(x.Prices, token, stored, 0, proto4.LeafSize/2, rhpx.Script{}).Result
+	case "read-offset-unaligned":
+		res = x.R.Read(x.Prices, token, stored, proto4.LeafSize/2, proto4.LeafSize/2, rhpx.Script{}).Result
+	case "write-length-zero":
+		res = x.R.Write(x.Prices, token, nil, 0, rhpx.Script{}).Result
+	case "write-length-unaligned":
+		res = x.R.Write(x.Prices, token, make([]byte, 100), 100, rhpx.Script{}).Result
+	case "write-too-long":
+		res = x.R.Write(x.Prices, token, make([]byte, 128), proto4.SectorSize+proto4.LeafSize, rhpx.Script{}).Result
+	case "verify-leaf-out-of-range":
+		res = x.R.Verify(x.Prices, token, stored, proto4.LeavesPerSector, rhpx.Script{}).Result
+	}
+	if res.Infra != nil {
+		x.cs.Inconclusive("watchdog")
+		return errInconclusive
+	}
+	x.cs.Class("paid-rpc-must-fail:" + kind)
+	what := "account-paid " + kind
+	if res.Done {
+		return fmt.Errorf("%s: the host served it", what)
 	}
 	if err := quietLog(x.H.Log.Since(logFrom)); err != nil {
 		return fmt.Errorf("%s (%v): %w", what, res, err)
@@ -627,7 +707,11 @@ func genC09(t *rapid.T) C09Case {
 	n := rapid.IntRange(1, maxOps).Draw(t, "nops")
 	for i := 0; i < n; i++ {
 		op := C09Op{C: rapid.IntRange(0, nc-1).Draw(t, "c"), Old: rapid.IntRange(0, 4).Draw(t, "old") == 0}
-		switch k := rapid.IntRange(0, 19).Draw(t, "op"); {
+		switch k := rapid.IntRange(0, 21).Draw(t, "op"); {
+		case k >= 20:
+			op.Op = "paidfail"
+			op.Len = rapid.IntRange(0, len(paidFailKinds)-1).Draw(t, "failkind")
+			op.Off = rapid.IntRange(0, 1<<16).Draw(t, "failarg")
 		case k >= 18:
 			op.Op = "write"
 		case k >= 16:
@@ -680,7 +764,7 @@ func genC09(t *rapid.T) C09Case {
 	return c
 }
 
-const c09Rule = "sequences of uploads (RPCWriteSector, honest or abandoned at any point incl. after all data was sent), append (stored, uploaded and unknown roots mixed), free (any positions, any order, duplicates, out of range), sector-roots ranges, honest renewals / refreshes (the renewed contract stays under observation) and faulty exchanges (renter stops/closes/stalls/truncates at a message boundary, or sends a wrong signature; renew / refresh whose finished set the pool rejects) on 1-2 contracts of 0..6 (thorough 0..10) sectors against the real rhp4.Server; after every attempt MetaRoot(host roots) = committed FileMerkleRoot, count x SectorSize = Filesize, failed/abandoned attempts leave the by-value snapshot (revision, roots, balances) unchanged, successes equal the list model and core's ReviseFor*. Non-trivial = a free of >= 2 positions where a replacement comes from a position that is itself freed, or an abort after the host's first response; distinct by hash of the case."
+const c09Rule = "sequences of uploads (RPCWriteSector, honest or abandoned at any point incl. after all data was sent), append (stored, uploaded and unknown roots mixed), free (any positions, any order, duplicates, out of range), sector-roots ranges, account-paid RPCs that must fail (read / verify of roots the host does not store or refused in an append, reads and writes outside the accepted offsets / lengths; every account and pool balance must stay put), honest renewals / refreshes (the renewed contract stays under observation) and faulty exchanges (renter stops/closes/stalls/truncates at a message boundary, or sends a wrong signature; renew / refresh whose finished set the pool rejects) on 1-2 contracts of 0..6 (thorough 0..10) sectors against the real rhp4.Server; after every attempt MetaRoot(host roots) = committed FileMerkleRoot, count x SectorSize = Filesize, failed/abandoned attempts leave the by-value snapshot (revision, roots, balances) unchanged, successes equal the list model and core's ReviseFor*. Non-trivial = a free of >= 2 positions where a replacement comes from a position that is itself freed, or an abort after the host's first response; distinct by hash of the case."
 
 var c09Assumptions = []string{
 	"host = rhp4.Server over the repository's reference testutil.EphemeralContractor / EphemeralSectorStore on the all-v2 test network, reached through an in-memory buffered stream (net.Conn obligations only)",
